@@ -110,6 +110,10 @@ Definition parse_data_type (ts : list token) : outcome (string * list token) :=
       if isT (cur ts) TyRBracket then Val ((s ++ "[]")%string, advance ts) else Err EExpected
     else Val (s, ts).
 
+(* ast.Plus = 0, ast.Minus = 1 (ast.Not = 2 is [unop_not] of Model/Expr.v) *)
+Definition unop_plus : N := 0%N.
+Definition unop_minus : N := 1%N.
+
 Section Ladder.
   Variable md : nat.                                 (* MaxRecursionDepth *)
   Variable df : dflags.
@@ -317,10 +321,29 @@ Section Ladder.
     do (l, ts) <- primary d ts;
     json_tail d l ts.
 
+  (* parseUnaryExpression / parseSignedExpression (since /repo "fix: unary minus and plus"): a chain of signs,
+     each passing the depth check of parseSignedExpression, then parseJSONExpression.  The mutual recursion
+     parseUnaryExpression -> parseSignedExpression -> parseUnaryExpression consumes one token per round:
+     fuel = number of remaining tokens + 1. *)
+  Definition is_sign (t : token) : bool := isT t TyMinus || isT t TyPlus.
+  Fixpoint unary_chain (n : nat) (d : nat) (ts : list token) : res :=
+    match n with
+    | 0 => OutOfFuel
+    | S n' =>
+        if is_sign (cur ts) then
+          if md <? S d then Err EDepth
+          else
+            let op := if isT (cur ts) TyPlus then unop_plus else unop_minus in
+            do (e, ts') <- unary_chain n' (S d) (advance ts);
+            Val (GUnary op e, ts')
+        else json_level d ts
+    end.
+  Definition unary_level (d : nat) (ts : list token) : res := unary_chain (S (length ts)) d ts.
+
   (* parseMultiplicativeExpression *)
   Definition mul_level (d : nat) (ts : list token) : res :=
-    do (l, ts) <- json_level d ts;
-    chain cont6 (bin_step (json_level d)) (S (length ts)) l ts.
+    do (l, ts) <- unary_level d ts;
+    chain cont6 (bin_step (unary_level d)) (S (length ts)) l ts.
 
   (* parseAdditiveExpression *)
   Definition add_level (d : nat) (ts : list token) : res :=
